@@ -23,7 +23,8 @@ MODEL = ['Gen/GenConsts.v', 'Model/Base.v', 'Model/Tables.v', 'Model/Txn.v', 'Mo
          'Spec/CandSpec.v']
 DEPS = {'C13': MODEL + ['Proofs/C13.v', 'Model/Parse.v', 'Model/Json.v', 'Gen/GenSchemas.v', 'Spec/Fields.v', 'Model/DecodeQ.v',
                         'Proofs/C13q.v'],
-        'C03': MODEL + ['Proofs/C03.v', 'Proofs/C03r.v', 'Proofs/C03e.v', 'Proofs/C03s.v', 'Proofs/C03c.v'],
+        'C03': MODEL + ['Proofs/C03.v', 'Proofs/C03r.v', 'Proofs/C03e.v', 'Proofs/C03s.v', 'Proofs/C03c.v', 'Model/Parse.v', 'Model/Json.v',
+                        'Gen/GenSchemas.v', 'Spec/Fields.v', 'Model/DecodeQ.v', 'Model/DecodeQC.v', 'Proofs/C03q.v'],
         'C02': MODEL + ['Proofs/C02.v', 'Proofs/C02m.v', 'Proofs/C02c.v']}
 BUDGET = {'quick': {'C13': (40, 25), 'C03': (64, 25), 'C02': (40, 20)},
           'thorough': {'C13': (200, 40), 'C03': (240, 30), 'C02': (160, 25)}}
@@ -203,6 +204,20 @@ def run(pid, tier, out):
                 corr_error = (corr_error or '') + ' query decoding stream: %s' % str(exc)[-500:]
         else:
             corr_error = (corr_error or '') + ' Model/DecodeQ.v did not build'
+    if pid == 'C03':
+        # the front half of the candidates handler (query string -> groups + request-wide parameters) against Model/DecodeQC.v
+        if common.vo_fresh('Model/DecodeQC.v'):
+            try:
+                from harness import decodeqc
+                n_c, n_b, first, dstats = decodeqc.run(seed + 3, 500 if tier == 'quick' else 8000)
+                dq = {'query_strings': n_c, 'disagreements': n_b, 'outcomes': {k: v for k, v in dstats.items() if k != 'by version'}}
+                if n_b:
+                    corr_error = (corr_error or '') + ' query decoding: Model/DecodeQC.v disagrees with list_allocation_candidates on %d of ' \
+                        '%d query strings: %s' % (n_b, n_c, ' '.join(first.split())[:600])
+            except Exception as exc:      # noqa
+                corr_error = (corr_error or '') + ' query decoding stream: %s' % str(exc)[-500:]
+        else:
+            corr_error = (corr_error or '') + ' Model/DecodeQC.v did not build'
     proof_broken = (not ps['ok']) or bool(hyg) or not ok_tr
     tie_broken = bool(bad) or corr_error is not None
 
